@@ -127,6 +127,7 @@ def run(F, res, tier):
     c06.search_scope_rules(F, res)
     c06.search_rejections_are_reviewed(F, res, rule="N11")
     c06.search_scope_narrowings_are_reviewed(F, res, rule="N12")
+    c06.textual_hits_may_overlap(F, res, rule="N16")
     from rules import c10 as _c10n
     _c10n.declared_everywhere(F, res, rule="N15")   # what a name resolves to must not depend on how functions are spelled (group order = declaration order)
     from rules import c01 as _c01n
